@@ -241,18 +241,20 @@ def check_case(case, ctx):
             got, want = to_model(numpoly.polynomial(pa.values, names=pa.names))[()], ma
         else:
             arr = numpoly.polynomial([pa, pb])
-            buf = io.StringIO()
-            try:
-                numpoly.savetxt(buf, arr)
-                buf.seek(0)
-                back = numpoly.loadtxt(buf)
-            except Exception:
-                ctx.label("text:raised")
-                ctx.nontrivial(big >= 69)
-                return []
-            bm = to_model(back)
-            if bm.shape != (2,) or not (bm[0] == ma and bm[1] == mb):
-                return fail("value", "text round-trip gave %r / %r" % (bm[0] if bm.size else None, bm[1] if bm.size > 1 else None))
+            for obj, wants in ((arr, [ma, mb]), (pa, [ma])):
+                # (pa keeps its terms in the order they were given, arr is stored sorted)
+                buf = io.StringIO()
+                try:
+                    numpoly.savetxt(buf, obj)
+                    buf.seek(0)
+                    back = numpoly.loadtxt(buf)
+                except Exception:
+                    ctx.label("text:raised")
+                    ctx.nontrivial(big >= 69)
+                    return []
+                bm = to_model(back)
+                if bm.size != len(wants) or not all(b == w for b, w in zip(bm.flat, wants)):
+                    return fail("value", "text round-trip gave %r, expected %r" % (list(bm.flat), wants))
             got = want = None
     except MalformedPoly as err:
         return fail("malformed", str(err))
@@ -267,6 +269,12 @@ def check_case(case, ctx):
         return fail("exception:" + type(err).__name__, repr(err))
     if got is not None and not (got == want):
         return fail("value", "got %r expected %r" % (got, want))
+    # the operands still denote what they did (monomials of the inputs must not move either)
+    try:
+        if not (to_model(pa)[()] == ma and to_model(pb)[()] == mb):
+            return fail("operand-changed", "an operand denotes another polynomial after the operation")
+    except MalformedPoly as err:
+        return fail("operand-malformed", str(err))
     ctx.label("random:" + op)
     ctx.nontrivial(big >= 69)
     return fails
